@@ -133,14 +133,15 @@ def render_fn(fn_item, contract, log, where, in_trait_decl=False):
     if pre:
         b = re.sub(r'\bself\b', 'self_', b)
         b = ' ' + pre + b
-    if contract and contract.get('loops'):
-        b = insert_loop_invariants(b, contract['loops'], where)
+    if contract and (contract.get('loops') or contract.get('ghost')):
+        b = insert_loop_invariants(b, contract.get('loops') or {}, where, contract.get('ghost') or [], log)
     return out + ' {' + b + '}'
 
 
-def insert_loop_invariants(body, loops, where):
+def insert_loop_invariants(body, loops, where, ghost=(), log=None):
     """loops: {ordinal(1-based): clause text}. Loop headers are `for .. in .. {`, `while .. {`, `loop {`
-    in textual order."""
+    in textual order.  ghost: [(anchor, n, text)] ghost-only statements (R7) inserted at `start` of the body,
+    `before-loop n`, `after-loop n` or at the start of the body of loop n (`loop-body n`)."""
     heads = []
     for m in re.finditer(r'\b(for|while|loop)\b', body):
         # confirm not inside string/comment: cheap check via scan positions
@@ -151,8 +152,18 @@ def insert_loop_invariants(body, loops, where):
     # part of a struct literal -- for the code under contract this simple rule is sufficient and a
     # mismatch only makes Verus report a syntax error (exit 2), never a false verdict.
     inserts = []
+    ghost_by_loop = {}
+    for anchor, gn, text in ghost:
+        if anchor == 'start':
+            inserts.append((0, '\n' + text.rstrip() + '\n'))
+            if log is not None:
+                log.rw('R7', where, 'ghost statements at function start')
+        else:
+            ghost_by_loop.setdefault(gn, []).append((anchor, text))
+            if gn < 1 or gn > len(heads):
+                raise LostAnchor('%s: ghost anchor %s %d: function has %d loops' % (where, anchor, gn, len(heads)))
     for n, h in enumerate(heads, 1):
-        if n not in loops:
+        if n not in loops and n not in ghost_by_loop:
             continue
         depth = 0
         pos = None
@@ -169,6 +180,20 @@ def insert_loop_invariants(body, loops, where):
                 in_pos = p
         if pos is None:
             raise LostAnchor('%s: loop %d has no body' % (where, n))
+        for anchor, text in ghost_by_loop.get(n, []):
+            if log is not None:
+                log.rw('R7', where, 'ghost statements %s %d' % (anchor, n))
+            if anchor == 'before-loop':
+                inserts.append((h, '\n' + text.rstrip() + '\n'))
+            elif anchor == 'loop-body':
+                inserts.append((pos + 1, '\n' + text.rstrip() + '\n'))
+            elif anchor == 'after-loop':
+                close = match_close(body, pos)
+                inserts.append((close + 1, '\n' + text.rstrip() + '\n'))
+            else:
+                raise ValueError('unknown ghost anchor ' + anchor)
+        if n not in loops:
+            continue
         inserts.append((pos, '\n' + loops[n].rstrip() + '\n'))
         if 'VERUS_it' in loops[n]:
             # R6: name the ghost iterator of a `for` loop (`for PAT in VERUS_it: EXPR`): ghost-only annotation
@@ -201,6 +226,12 @@ def parse_fn_contracts(lines):
         elif s.startswith('//@loop '):
             curloop = int(s.split()[1])
             cur['loops'][curloop] = ''
+        elif s.startswith('//@ghost '):
+            parts = s.split()
+            anchor = parts[1]
+            n = int(parts[2]) if len(parts) > 2 else 0
+            cur.setdefault('ghost', []).append([anchor, n, ''])
+            curloop = ('ghost', len(cur['ghost']) - 1)
         elif s.startswith('//@drop '):
             drops += s.split()[1:]
         elif s.startswith('//@external '):
@@ -209,7 +240,9 @@ def parse_fn_contracts(lines):
             cur = None
             curloop = None
         elif cur is not None:
-            if curloop is not None:
+            if isinstance(curloop, tuple):
+                cur['ghost'][curloop[1]][2] += ln + '\n'
+            elif curloop is not None:
                 cur['loops'][curloop] += ln + '\n'
             else:
                 cur['clauses'] += ln + '\n'
@@ -346,17 +379,8 @@ class Splicer:
             elif kind == 'fn':
                 name = parts[1]
                 it = self.src(crate).one(mod, kind='fn', name=name)
-                c = {'binder': parts[2] if len(parts) > 2 and parts[2] else None, 'clauses': '', 'loops': {}}
-                curloop = None
-                for b in block:
-                    bs = b.strip()
-                    if bs.startswith('//@loop '):
-                        curloop = int(bs.split()[1])
-                        c['loops'][curloop] = ''
-                    elif curloop is not None:
-                        c['loops'][curloop] += b + '\n'
-                    else:
-                        c['clauses'] += b + '\n'
+                _, cs, _, _ = parse_fn_contracts(['//@fn %s | %s' % (name, parts[2] if len(parts) > 2 else '')] + block)
+                c = cs[name]
                 where = '%s::%s fn %s' % (crate, mod, name)
                 out.append(render_fn(it, c, self.log, where))
                 self.log.real_fns.append({'crate': crate, 'mod': mod, 'container': '', 'fn': name})
